@@ -21,7 +21,7 @@ use crate::dfa::Dfa;
 use crate::expression::Expression;
 use itertools::Itertools;
 use regex::{Regex, RegexBuilder};
-use std::cmp::Ordering;
+use std::cmp::{Ordering, Reverse};
 use std::fmt::{Display, Formatter, Result};
 
 pub struct RegExp<'a> {
@@ -39,7 +39,8 @@ impl<'a> RegExp<'a> {
         let mut dfa = Dfa::from(&grapheme_clusters, true, config);
         let mut ast = Expression::from(dfa, config);
 
-        if config.is_start_anchor_disabled && config.is_end_anchor_disabled {
+        if config.is_end_anchor_disabled {
+            // Without the end anchor, searching a test case must not stop at a shorter one.
             // The check is skipped if the expression is not meant for the regex crate
             // (surrogate pairs) and therefore cannot be compiled.
             if let Some(mut regex) = Self::convert_expr_to_regex(&ast, config) {
@@ -58,12 +59,19 @@ impl<'a> RegExp<'a> {
                     if !Self::convert_expr_to_regex(&ast, config)
                         .is_some_and(|regex| Self::regex_matches_all_test_cases(&regex, test_cases))
                     {
-                        let mut exprs = vec![];
-                        for cluster in grapheme_clusters {
-                            let literal = Expression::new_literal(cluster, config);
-                            exprs.push(literal);
-                        }
-                        ast = Expression::new_alternation(exprs, config);
+                        // Longer test cases first, a shorter one may be the prefix of a longer one.
+                        let exprs = grapheme_clusters
+                            .into_iter()
+                            .zip(test_cases.iter())
+                            .sorted_by_key(|(_, test_case)| Reverse(test_case.chars().count()))
+                            .map(|(cluster, _)| Expression::new_literal(cluster, config))
+                            .collect_vec();
+                        ast = Expression::Alternation(
+                            exprs,
+                            config.is_capturing_group_enabled,
+                            config.is_output_colorized,
+                            config.is_verbose_mode_enabled,
+                        );
                     }
                 }
             }
@@ -115,7 +123,11 @@ impl<'a> RegExp<'a> {
     fn regex_matches_all_test_cases(regex: &Regex, test_cases: &[String]) -> bool {
         test_cases
             .iter()
-            .all(|test_case| regex.find_iter(test_case).count() == 1)
+            .all(|test_case| {
+                regex
+                    .find(test_case)
+                    .is_some_and(|it| it.start() == 0 && it.end() == test_case.len())
+            })
     }
 
     fn sort(test_cases: &mut Vec<String>) {
